@@ -26,7 +26,26 @@ def main():
         if args.replay:
             return mod.replay(args.replay)
         chk = core.Check(pid, args.tier, seed)
-        mod.run(chk)
+        try:
+            mod.run(chk)
+        except core.InfraError:
+            raise
+        except Exception as e:  # noqa
+            # an exception escaped from a call the harness makes unguarded. If it was raised inside pyrepseq it is the
+            # implementation failing where the property needs an answer: a violation with the traceback as replay.  Violations
+            # recorded before the abort are reported either way; only a failure of the harness itself with nothing found is exit 2.
+            tb = traceback.extract_tb(e.__traceback__)
+            root = os.path.realpath(os.path.join(core.REPO, "pyrepseq")) + os.sep
+            frames = [f for f in tb if os.path.realpath(f.filename).startswith(root)]
+            text = "".join(traceback.format_exception(type(e), e, e.__traceback__))[-3000:]
+            if frames:
+                last = frames[-1]
+                chk.violation(f"{pid}|unexpected-exception|{type(e).__name__}|{os.path.basename(last.filename)}:{last.name}",
+                              f"{type(e).__name__} raised inside pyrepseq ({os.path.basename(last.filename)}:{last.lineno} in {last.name}) "
+                              f"during a call the property needs an answer from: {e}", {"traceback": text})
+            if not [v for v in chk.violations if not v["no_input"]]:
+                raise
+            chk.notes.append("harness run aborted by an exception after the recorded violations: " + text[-600:])
         return chk.finish()
     except core.InfraError as e:
         print(f"INFRA-ERROR property={pid} {e}")
